@@ -250,3 +250,101 @@ func c11Stall(c *Ctx) {
 	}
 }
 
+
+// c11QuickRetry: a job fails in a transient way and is retried at once
+// (--retry-wait=0): the new attempt is made within the second in which the failed one
+// was (the uniquifier is made of the pid and the second, so both attempts may bear the
+// same one).  Nothing the failed attempt left - its error, its log, its job info - may be
+// taken for the new attempt's: the run completes with the undisturbed run's outputs, and
+// every job receives what it received there.
+func c11QuickRetry(c *Ctx) {
+	gcfg := swarmGen(c.Plan, c.thorough())
+	gcfg.TypedMaps, gcfg.MapCalls = true, true
+	gcfg.AdvKeys = AdvKeys
+	gcfg.MapBias = true
+	prog := Generate(c.Plan, gcfg)
+	if c.Plan.Draw(3) == 0 {
+		prog = templateForkOrderProg(c.Plan)
+	}
+	fcfg := &FCfg{MaxLen: 1 + c.Plan.Draw(3), MaxChunks: 1 + c.Plan.Draw(3), Salt: fmt.Sprintf("c11q%d", c.Plan.Draw(100)), KeyAlphabet: AdvKeys}
+	flags := append(baseFlags(c.Plan), "--vdrmode=disable", "--autoretry=2", "--retry-wait=0")
+	base := &RunCfg{Prog: prog, FCfg: fcfg, MaxSteps: 80000, Flags: flags}
+	swarmSched(c.Plan, base)
+	twin := c.RunOnce(base, nil)
+	c.Res.Shape = progShape(prog)
+	c.Res.Class = "quick-retry-twin-" + twin.Class()
+	if twin.Class() != "complete" || len(twin.Panics) > 0 || len(twin.Jobs) == 0 {
+		return
+	}
+	actTwin, err := twin.ReadTopOuts()
+	if err != nil {
+		return
+	}
+	twinOuts := Canon(twin.normFiles(actTwin))
+	twinArgs := map[string]string{}
+	for _, j := range twin.Jobs {
+		twinArgs[j.Key()+":"+j.Phase] = Canon(twin.normFiles(j.Args))
+	}
+	n := 2
+	if c.thorough() {
+		n = 6
+	}
+	c.Res.Class = "quick-retry-checked"
+	for i := 0; i < n; i++ {
+		j := twin.Jobs[c.Plan.Draw(len(twin.Jobs))]
+		f := []string{"transient-error", "die-signal", "die-early", "late-transient-error"}[c.Plan.Draw(4)]
+		key := j.Key() + ":" + j.Phase
+		cfg := &RunCfg{Prog: prog, FCfg: fcfg, MaxSteps: 100000, Flags: flags,
+			WMrp: base.WMrp, WJob: base.WJob, WAux: base.WAux, WTime: base.WTime,
+			MapMode: base.MapMode, MapSalt: base.MapSalt}
+		cfg.JobFaults = map[string]string{key + "#1": f}
+		if c.Plan.Draw(3) == 0 {
+			cfg.JobFaults[key+"#2"] = f // fails twice, the third attempt is the last one allowed
+		}
+		r := c.RunOnce(cfg, nil)
+		c.Res.Probes["quick-retry-runs"]++
+		c.Res.Nontrivial = true
+		add := func(oracle, msg string) {
+			c.Res.Violations = append(c.Res.Violations, Violation{"C11", oracle,
+				fmt.Sprintf("%s of %s on its first attempt%s, retried at once (--retry-wait=0): %s", f, key, map[bool]string{true: " and its second", false: ""}[len(cfg.JobFaults) > 1], msg), r.Steps})
+		}
+		if len(r.Panics) > 0 {
+			c.Res.Violations = append(c.Res.Violations, Violation{"OBS", "mrp-panic", firstLines(r.Panics[0], 14), r.Steps})
+			continue
+		}
+		switch r.Class() {
+		case "step-budget":
+			continue
+		case "complete":
+			act, err := r.ReadTopOuts()
+			if err != nil {
+				add("retried-attempt-broke-the-run", "no top-level outputs: "+err.Error())
+			} else if got := Canon(r.normFiles(act)); got != twinOuts {
+				add("failed-attempt-changed-outputs", fmt.Sprintf("top-level outputs %s, undisturbed run %s", got, twinOuts))
+			}
+			for _, o := range r.Jobs {
+				if o.Args == nil {
+					continue
+				}
+				k := o.Key() + ":" + o.Phase
+				if want, ok := twinArgs[k]; ok {
+					if got := Canon(r.normFiles(o.Args)); got != want {
+						add("failed-attempt-reached-a-consumer", fmt.Sprintf("job %s received %s, in the undisturbed run %s", k, got, want))
+						break
+					}
+				}
+			}
+		default:
+			add("failed-attempt-taken-for-its-retry", fmt.Sprintf("run ended %s (exit codes %v): %s", r.Class(), r.ExitCodes, lastLines(r.outBuf.String(), 8)))
+		}
+		if len(c.Res.Violations) > 0 || c.Res.Sample == nil {
+			s := describeRun(r, true)
+			s["fault"] = map[string]interface{}{"job": key, "failure": f, "attempts_failing": len(cfg.JobFaults)}
+			s["twin_outs"] = twinOuts
+			c.Res.Sample = s
+		}
+		if len(c.Res.Violations) > 0 {
+			return
+		}
+	}
+}
